@@ -1,11 +1,11 @@
-\* exhaustive, repaired flags: 1 database x 1 collection name x 2 incarnations x 2 partition names x 2 incarnations, all states
+\* exhaustive, repaired flags: 1 database x 1 collection name x 2 incarnations x 1 partition name x 2 incarnations, all states
 SPECIFICATION Spec
 CHECK_DEADLOCK FALSE
 INVARIANTS TypeOK ContractMilvus ContractKafka
 CONSTANTS
   DBs <- OneDB
   CNames <- OneC
-  PNames <- TwoPs
+  PNames <- OneP
   MaxInc = 2
   MaxPInc = 2
   DbStates = {"live", "goneDown", "goneBoth"}
